@@ -416,6 +416,13 @@ func (r *RefDB) Step(o Op, now int64) (ok bool) {
 		for k, x := range o.M {
 			merged[k] = x
 		}
+		// the new node must be storable, else the whole call is refused (and leaves nothing)
+		if len(o.V) > 0 && len(o.V) != ix.dim() {
+			return false
+		}
+		if Unserialisable(merged) {
+			return false
+		}
 		// incoming edges of the old node are copied to the new one
 		for k, rels := range r.Edges {
 			parts := strings.SplitN(k, "\x00", 2)
